@@ -776,9 +776,34 @@ func (e *ExternalConstantExpression) Evaluate(ctx *Context, input system.Collect
 		return nil, fmt.Errorf("%w: %s", ErrConstantNotFound, e.Identifier)
 	}
 	if collection, ok := constant.(system.Collection); ok {
-		return collection, nil
+		return flattenCollection(collection), nil
 	}
 	return system.Collection{constant}, nil
+}
+
+// flattenCollection splices nested collections (which evalopts.EnvVariable accepts)
+// into their parent: a FHIRPath collection is flat. A collection without nested
+// collections is returned as it is.
+func flattenCollection(collection system.Collection) system.Collection {
+	nested := false
+	for _, item := range collection {
+		if _, ok := item.(system.Collection); ok {
+			nested = true
+			break
+		}
+	}
+	if !nested {
+		return collection
+	}
+	flat := make(system.Collection, 0, len(collection))
+	for _, item := range collection {
+		if inner, ok := item.(system.Collection); ok {
+			flat = append(flat, flattenCollection(inner)...)
+		} else {
+			flat = append(flat, item)
+		}
+	}
+	return flat
 }
 
 var _ Expression = (*ExternalConstantExpression)(nil)
